@@ -321,6 +321,9 @@ def finish(prop, level, tier, seed, obs, coverage, assumptions, t0, min_evals=1,
     cov['arena_bytes_compared'] = int(obs.stats.get('bytes_compared', 0))
     if obs.samples and 'samples' not in cov:
         cov['samples'] = obs.samples[:12]
+    if obs.stats.get('fuzz_execs'):
+        cov['coverage_guided_executions'] = int(obs.stats['fuzz_execs'])
+        cov['coverage_guided_features'] = {k.split('.', 1)[1]: int(v) for k, v in obs.stats.items() if k.startswith('fuzz_features.')}
     cov['violation_keys'] = [k for k, _ in unknown][:50]
     cov['known_findings_seen'] = sorted(seen_known)
     if obs.inconclusive:
